@@ -7,9 +7,24 @@
 
 use crate::refcbor::V;
 
-pub const F_G: bool = cfg!(feature = "g");
-pub const F_L: bool = cfg!(feature = "l");
-pub const F_T: bool = cfg!(feature = "t");
+/// base mode: describe only the members that exist without any wire-affecting feature
+/// (used by C16 to build the common-member corpus inside every configuration)
+static BASE: std::sync::atomic::AtomicBool = std::sync::atomic::AtomicBool::new(false);
+pub fn set_base_mode(on: bool) {
+    BASE.store(on, std::sync::atomic::Ordering::SeqCst);
+}
+fn base() -> bool {
+    BASE.load(std::sync::atomic::Ordering::Relaxed)
+}
+pub fn f_g() -> bool {
+    cfg!(feature = "g") && !base()
+}
+pub fn f_l() -> bool {
+    cfg!(feature = "l") && !base()
+}
+pub fn f_t() -> bool {
+    cfg!(feature = "t") && !base()
+}
 
 pub const ST_INVALID_COMMAND: u8 = 0x01;
 pub const ST_INVALID_CBOR: u8 = 0x12;
@@ -197,7 +212,7 @@ pub fn mc_extensions() -> Ty {
         ft("hmac-secret", false, Ty::Bool),
         ft("largeBlobKey", false, Ty::Bool),
     ];
-    if F_T {
+    if f_t() {
         v.push(ft("thirdPartyPayment", false, Ty::Bool));
     }
     Ty::Struct(Keys::Text, v)
@@ -220,7 +235,7 @@ pub fn ga_extensions_in() -> Ty {
         ft("hmac-secret", false, hmac_secret_input()),
         ft("largeBlobKey", false, Ty::Bool),
     ];
-    if F_T {
+    if f_t() {
         v.push(ft("thirdPartyPayment", false, Ty::Bool));
     }
     Ty::Struct(Keys::Text, v)
@@ -228,7 +243,7 @@ pub fn ga_extensions_in() -> Ty {
 
 pub fn ga_extensions_out() -> Ty {
     let mut v = vec![ft("hmac-secret", false, Ty::Bytes(Some(80)))];
-    if F_T {
+    if f_t() {
         v.push(ft("thirdPartyPayment", false, Ty::Bool));
     }
     Ty::Struct(Keys::Text, v)
@@ -334,29 +349,29 @@ pub fn ctap_options() -> Ty {
     // order of this list is irrelevant to every oracle (views and comparisons are by name)
     let mut v: Vec<Field> = Vec::new();
     let b = |n: &'static str, req: bool| ft(n, req, Ty::Bool);
-    if F_G {
+    if f_g() {
         v.push(b("ep", false));
     }
     v.push(b("rk", true));
     v.push(b("up", true));
     v.push(b("uv", false));
     v.push(b("plat", false));
-    if F_G {
+    if f_g() {
         v.push(b("uvAcfg", false));
         v.push(b("alwaysUv", false));
     }
     v.push(b("credMgmt", false));
-    if F_G {
+    if f_g() {
         v.push(b("authnrCfg", false));
         v.push(b("bioEnroll", false));
     }
     v.push(b("clientPin", false));
     v.push(b("largeBlobs", false));
-    if F_G {
+    if f_g() {
         v.push(b("uvBioEnroll", false));
     }
     v.push(b("pinUvAuthToken", false));
-    if F_G {
+    if f_g() {
         v.push(b("setMinPINLength", false));
         v.push(b("makeCredUvNotRqd", false));
         v.push(b("credentialMgmtPreview", false));
@@ -395,7 +410,7 @@ pub fn get_info_response() -> Ty {
         f(10, "algorithms", false, Ty::Params),
         f(11, "maxSerializedLargeBlobArray", false, Ty::Uint(USZ)),
     ];
-    if F_G {
+    if f_g() {
         v.extend(vec![
             f(12, "forcePINChange", false, Ty::Bool),
             f(13, "minPINLength", false, Ty::Uint(USZ)),
@@ -474,16 +489,22 @@ pub fn cm_response() -> Ty {
         f(10, "credProtect", false, Ty::Enum(&CRED_PROTECT)),
         f(11, "largeBlobKey", false, Ty::BytesExact(32)),
     ];
-    if F_T {
+    if f_t() {
         v.push(f(12, "thirdPartyPayment", false, Ty::Bool));
     }
     Ty::Struct(Keys::Int, v)
 }
 
-pub const LB_FRAGMENT_MAX: usize = if F_L { 3008 } else { 0 };
+pub fn lb_fragment_max() -> usize {
+    if f_l() {
+        3008
+    } else {
+        0
+    }
+}
 
 pub fn lb_response() -> Ty {
-    Ty::Struct(Keys::Int, vec![f(1, "config", false, Ty::Bytes(Some(LB_FRAGMENT_MAX)))])
+    Ty::Struct(Keys::Int, vec![f(1, "config", false, Ty::Bytes(Some(lb_fragment_max())))])
 }
 
 // ---------------------------------------------------------------- command table
